@@ -2,7 +2,7 @@
 //@ module: backend::decrypt
 use super::*;
 use crate::error::verif_harness as vh;
-use crate::error::verif_harness::{ModelKey, RecBe, is_model_ciphertext_of, MODEL_OVERHEAD};
+use crate::error::verif_harness::{ModelKey, NullBe, RecBe, is_model_ciphertext_of, MODEL_OVERHEAD};
 use std::sync::atomic::Ordering::SeqCst;
 
 static EMPTY: [u8; 0] = [];
@@ -14,11 +14,17 @@ fn model_backend(serve: &'static [u8]) -> (Arc<RecBe>, DecryptBackend<ModelKey>)
     (rec, be)
 }
 /// compression mode is concrete per harness instance (container lengths stay concrete); the level is symbolic
+fn null_backend() -> (Arc<NullBe>, DecryptBackend<ModelKey>) {
+    let nb = Arc::new(NullBe::new());
+    let mut be = DecryptBackend::new(nb.clone() as Arc<dyn WriteBackend>, ModelKey);
+    be.set_extra_verify(kani::any());
+    (nb, be)
+}
 fn level<const ZSTD: bool>() -> Option<i32> { if ZSTD { let l: i32 = kani::any(); kani::assume((-7..=22).contains(&l)); Some(l) } else { None } }
 
 /// blob framing: process_data -> (store) -> read_encrypted_from_partial
 fn blob_roundtrip<const N: usize, const ZSTD: bool>() {
-    let (rec, mut be) = model_backend(&EMPTY);
+    let (rec, mut be) = null_backend();
     be.set_zstd(level::<ZSTD>());
     let data: [u8; N] = kani::any();
     let r = be.process_data(&data);
@@ -35,8 +41,7 @@ fn blob_roundtrip<const N: usize, const ZSTD: bool>() {
                     assert!(b.len() == N);
                     let mut i = 0;
                     while i < N { assert!(b[i] == data[i]); i += 1; }
-                    kani::cover!(be.zstd.is_some(), "compressed blob read back");
-                    kani::cover!(be.zstd.is_none(), "uncompressed blob read back");
+                    kani::cover!(true, "blob read back");
                     std::mem::forget(b);
                 }
                 Err(e) => { std::mem::forget(e); assert!(false, "stored blob does not read back"); }
@@ -62,16 +67,13 @@ fn blob_roundtrip<const N: usize, const ZSTD: bool>() {
 //@ timeout: 900
 //@ mem: 10
 //@ kernel: DecryptBackend::{process_data, encrypt_data, very_data, set_zstd, set_extra_verify}, DecryptReadBackend::read_encrypted_from_partial
-//@ bound: blob of 3 symbolic bytes; compression off; extra_verify symbolic; nonce byte symbolic; unwind 44
+//@ bound: blob of 3 symbolic bytes; compression off; extra_verify symbolic; nonce byte symbolic; unwind 40
 //@ oracle: process_data returns (ciphertext, plain length, Some(plain length) iff compressed); uncompressed ciphertext is exactly key.encrypt_data(plaintext) under the model; read_encrypted_from_partial with the recorded length returns the input; a wrong recorded length is an error
 //@ assume: blobs are non-empty (both chunkers never yield an empty chunk - asserted by C06 harnesses; a serialized tree is never empty)
 //@ stub: CryptoKey = ModelKey (ideal AEAD model, DESIGN 1.5); zstd::stream::{encode_all,decode_all} -> invertible framing 0xFD||data; Backtrace::capture, fmt::format
 #[kani::proof]
-#[kani::unwind(44)]
+#[kani::unwind(40)]
 #[kani::stub(std::backtrace::Backtrace::capture, crate::error::verif_harness::stub_backtrace_capture)]
-#[kani::stub(crate::error::RusticError::new, crate::error::verif_harness::stub_rustic_new)]
-#[kani::stub(crate::error::RusticError::attach_context, crate::error::verif_harness::stub_attach_context)]
-#[kani::stub(crate::error::RusticError::attach_source, crate::error::verif_harness::stub_attach_source)]
 #[kani::stub(alloc::fmt::format, crate::error::verif_harness::stub_format)]
 #[kani::stub(zstd::stream::encode_all, crate::error::verif_harness::stub_encode_all)]
 #[kani::stub(zstd::stream::decode_all, crate::error::verif_harness::stub_decode_all)]
@@ -83,19 +85,19 @@ pub(crate) fn c01_blob_framing_roundtrip_3() { blob_roundtrip::<3, false>(); }
 //@ timeout: 900
 //@ mem: 10
 //@ kernel: as c01_blob_framing_roundtrip_3, compression branch
-//@ bound: blob of 3 symbolic bytes; compression on with any level -7..=22; extra_verify symbolic; nonce byte symbolic; unwind 44
+//@ bound: blob of 3 symbolic bytes; compression on with any level -7..=22; extra_verify symbolic; nonce byte symbolic; unwind 40
 //@ oracle: as c01_blob_framing_roundtrip_3
 //@ assume: blobs are non-empty
 //@ stub: as c01_blob_framing_roundtrip_3
 #[kani::proof]
-#[kani::unwind(44)]
+#[kani::unwind(40)]
 #[kani::stub(std::backtrace::Backtrace::capture, crate::error::verif_harness::stub_backtrace_capture)]
-#[kani::stub(crate::error::RusticError::new, crate::error::verif_harness::stub_rustic_new)]
-#[kani::stub(crate::error::RusticError::attach_context, crate::error::verif_harness::stub_attach_context)]
-#[kani::stub(crate::error::RusticError::attach_source, crate::error::verif_harness::stub_attach_source)]
 #[kani::stub(alloc::fmt::format, crate::error::verif_harness::stub_format)]
 #[kani::stub(zstd::stream::encode_all, crate::error::verif_harness::stub_encode_all)]
 #[kani::stub(zstd::stream::decode_all, crate::error::verif_harness::stub_decode_all)]
+#[kani::stub(crate::error::RusticError::new, crate::error::verif_harness::stub_rustic_new)]
+#[kani::stub(crate::error::RusticError::attach_context, crate::error::verif_harness::stub_attach_context)]
+#[kani::stub(crate::error::RusticError::attach_source, crate::error::verif_harness::stub_attach_source)]
 pub(crate) fn c01_blob_framing_roundtrip_3_zstd() { blob_roundtrip::<3, true>(); }
 
 //@ harness: c01_blob_framing_roundtrip_1
@@ -109,14 +111,14 @@ pub(crate) fn c01_blob_framing_roundtrip_3_zstd() { blob_roundtrip::<3, true>();
 //@ assume: blobs are non-empty
 //@ stub: as c01_blob_framing_roundtrip_3
 #[kani::proof]
-#[kani::unwind(44)]
+#[kani::unwind(40)]
 #[kani::stub(std::backtrace::Backtrace::capture, crate::error::verif_harness::stub_backtrace_capture)]
-#[kani::stub(crate::error::RusticError::new, crate::error::verif_harness::stub_rustic_new)]
-#[kani::stub(crate::error::RusticError::attach_context, crate::error::verif_harness::stub_attach_context)]
-#[kani::stub(crate::error::RusticError::attach_source, crate::error::verif_harness::stub_attach_source)]
 #[kani::stub(alloc::fmt::format, crate::error::verif_harness::stub_format)]
 #[kani::stub(zstd::stream::encode_all, crate::error::verif_harness::stub_encode_all)]
 #[kani::stub(zstd::stream::decode_all, crate::error::verif_harness::stub_decode_all)]
+#[kani::stub(crate::error::RusticError::new, crate::error::verif_harness::stub_rustic_new)]
+#[kani::stub(crate::error::RusticError::attach_context, crate::error::verif_harness::stub_attach_context)]
+#[kani::stub(crate::error::RusticError::attach_source, crate::error::verif_harness::stub_attach_source)]
 pub(crate) fn c01_blob_framing_roundtrip_1() { blob_roundtrip::<1, true>(); }
 
 //@ harness: c01_file_framing_roundtrip
@@ -125,15 +127,12 @@ pub(crate) fn c01_blob_framing_roundtrip_1() { blob_roundtrip::<1, true>(); }
 //@ timeout: 900
 //@ mem: 10
 //@ kernel: DecryptBackend::{hash_write_full, encrypt_file, very_file, decrypt_file}, DecryptWriteBackend::hash_write_full_uncompressed, hash
-//@ bound: repository file payload of 3 bytes, first byte '{' or '[' (JSON), others symbolic; compression off; extra_verify symbolic; file type symbolic (not config); unwind 44
+//@ bound: repository file payload of 3 bytes, first byte '{' or '[' (JSON), others symbolic; compression off; extra_verify symbolic; file type symbolic (not config); unwind 40
 //@ oracle: exactly one write reaches storage; the id returned == hash(bytes written) and equals the id passed to write_bytes; the bytes written are key.encrypt_data(..) output (model ciphertext of the payload, or of 0x02||compressed payload); decrypt_file(bytes written) == payload
 //@ stub: ModelKey; zstd::stream::{copy_encode,decode_all} -> 0xFD framing; crypto::hasher::hash -> checksum model H'; Backtrace::capture; fmt::format
 #[kani::proof]
-#[kani::unwind(44)]
+#[kani::unwind(40)]
 #[kani::stub(std::backtrace::Backtrace::capture, crate::error::verif_harness::stub_backtrace_capture)]
-#[kani::stub(crate::error::RusticError::new, crate::error::verif_harness::stub_rustic_new)]
-#[kani::stub(crate::error::RusticError::attach_context, crate::error::verif_harness::stub_attach_context)]
-#[kani::stub(crate::error::RusticError::attach_source, crate::error::verif_harness::stub_attach_source)]
 #[kani::stub(alloc::fmt::format, crate::error::verif_harness::stub_format)]
 #[kani::stub(zstd::stream::copy_encode, crate::error::verif_harness::stub_copy_encode)]
 #[kani::stub(zstd::stream::decode_all, crate::error::verif_harness::stub_decode_all)]
@@ -150,11 +149,8 @@ pub(crate) fn c01_file_framing_roundtrip() { file_roundtrip::<false>(); }
 //@ oracle: as c01_file_framing_roundtrip
 //@ stub: as c01_file_framing_roundtrip
 #[kani::proof]
-#[kani::unwind(44)]
+#[kani::unwind(40)]
 #[kani::stub(std::backtrace::Backtrace::capture, crate::error::verif_harness::stub_backtrace_capture)]
-#[kani::stub(crate::error::RusticError::new, crate::error::verif_harness::stub_rustic_new)]
-#[kani::stub(crate::error::RusticError::attach_context, crate::error::verif_harness::stub_attach_context)]
-#[kani::stub(crate::error::RusticError::attach_source, crate::error::verif_harness::stub_attach_source)]
 #[kani::stub(alloc::fmt::format, crate::error::verif_harness::stub_format)]
 #[kani::stub(zstd::stream::copy_encode, crate::error::verif_harness::stub_copy_encode)]
 #[kani::stub(zstd::stream::decode_all, crate::error::verif_harness::stub_decode_all)]
@@ -185,7 +181,7 @@ fn file_roundtrip<const ZSTD: bool>() {
             }
             let back = be.decrypt_file(&written);
             match back {
-                Ok(b) => { assert!(b.len() == 3 && b[0] == data[0] && b[1] == data[1] && b[2] == data[2]); kani::cover!(compressed, "compressed file read back"); kani::cover!(!compressed, "plain file read back"); std::mem::forget(b); }
+                Ok(b) => { assert!(b.len() == 3 && b[0] == data[0] && b[1] == data[1] && b[2] == data[2]); kani::cover!(compressed || !ZSTD || uncompressed_path, "file read back (compressed where compression is on)"); kani::cover!(ZSTD || !compressed, "plain file read back"); std::mem::forget(b); }
                 Err(e) => { std::mem::forget(e); assert!(false, "written file does not decrypt"); }
             }
             std::mem::forget(written);
@@ -202,19 +198,19 @@ fn file_roundtrip<const ZSTD: bool>() {
 //@ timeout: 900
 //@ mem: 10
 //@ kernel: DecryptReadBackend::{read_encrypted_from_partial, read_encrypted_partial}, DecryptBackend::{decrypt, decrypt_file, read_encrypted_full}
-//@ bound: a stored blob = model ciphertext of 3 symbolic bytes (uncompressed); one symbolic fault: flip any one bit of any one byte, truncate to any shorter length, or extend by one byte; recorded uncompressed length as written; unwind 44
+//@ bound: a stored blob = model ciphertext of 3 symbolic bytes (uncompressed); one symbolic fault: flip any one bit of any one byte, truncate to any shorter length, or extend by one byte; recorded uncompressed length as written; unwind 40
 //@ oracle: every read path returns Err or exactly the original plaintext - never different content, never raw bytes (no fallback); truncation below nonce+tag is an error, not a panic
 //@ stub: ModelKey (ideal AEAD: the model's tag is sensitive to every single-byte change of nonce/ciphertext/tag); zstd -> 0xFD framing; Backtrace::capture; fmt::format
 //@ outside: cryptographic strength of Poly1305-AES (a solver would construct forgeries for a known key; not a defect), nonce uniqueness (OS RNG)
 #[kani::proof]
-#[kani::unwind(44)]
+#[kani::unwind(40)]
 #[kani::stub(std::backtrace::Backtrace::capture, crate::error::verif_harness::stub_backtrace_capture)]
-#[kani::stub(crate::error::RusticError::new, crate::error::verif_harness::stub_rustic_new)]
-#[kani::stub(crate::error::RusticError::attach_context, crate::error::verif_harness::stub_attach_context)]
-#[kani::stub(crate::error::RusticError::attach_source, crate::error::verif_harness::stub_attach_source)]
 #[kani::stub(alloc::fmt::format, crate::error::verif_harness::stub_format)]
 #[kani::stub(zstd::stream::encode_all, crate::error::verif_harness::stub_encode_all)]
 #[kani::stub(zstd::stream::decode_all, crate::error::verif_harness::stub_decode_all)]
+#[kani::stub(crate::error::RusticError::new, crate::error::verif_harness::stub_rustic_new)]
+#[kani::stub(crate::error::RusticError::attach_context, crate::error::verif_harness::stub_attach_context)]
+#[kani::stub(crate::error::RusticError::attach_source, crate::error::verif_harness::stub_attach_source)]
 pub(crate) fn c04_tampered_blob_is_rejected() { tamper_check::<false>(); }
 
 //@ harness: c04_tampered_blob_is_rejected_zstd
@@ -227,18 +223,18 @@ pub(crate) fn c04_tampered_blob_is_rejected() { tamper_check::<false>(); }
 //@ oracle: as c04_tampered_blob_is_rejected
 //@ stub: as c04_tampered_blob_is_rejected
 #[kani::proof]
-#[kani::unwind(44)]
+#[kani::unwind(40)]
 #[kani::stub(std::backtrace::Backtrace::capture, crate::error::verif_harness::stub_backtrace_capture)]
-#[kani::stub(crate::error::RusticError::new, crate::error::verif_harness::stub_rustic_new)]
-#[kani::stub(crate::error::RusticError::attach_context, crate::error::verif_harness::stub_attach_context)]
-#[kani::stub(crate::error::RusticError::attach_source, crate::error::verif_harness::stub_attach_source)]
 #[kani::stub(alloc::fmt::format, crate::error::verif_harness::stub_format)]
 #[kani::stub(zstd::stream::encode_all, crate::error::verif_harness::stub_encode_all)]
 #[kani::stub(zstd::stream::decode_all, crate::error::verif_harness::stub_decode_all)]
+#[kani::stub(crate::error::RusticError::new, crate::error::verif_harness::stub_rustic_new)]
+#[kani::stub(crate::error::RusticError::attach_context, crate::error::verif_harness::stub_attach_context)]
+#[kani::stub(crate::error::RusticError::attach_source, crate::error::verif_harness::stub_attach_source)]
 pub(crate) fn c04_tampered_blob_is_rejected_zstd() { tamper_check::<true>(); }
 
 fn tamper_check<const ZSTD: bool>() {
-    let (rec, mut be) = model_backend(&EMPTY);
+    let (rec, mut be) = null_backend();
     be.set_extra_verify(false);
     be.set_zstd(level::<ZSTD>());
     let data: [u8; 3] = kani::any();
@@ -270,3 +266,4 @@ fn tamper_check<const ZSTD: bool>() {
     }
     std::mem::forget(bad); std::mem::forget(enc); std::mem::forget(be); std::mem::forget(rec);
 }
+
